@@ -24,6 +24,9 @@ SCOPE = 'supp/scope.py'
 
 
 def run(repo, res):
+    _ns, _np = R.shape_stats(repo)
+    res.extra['e1_shapes_interpreted'] = _ns
+    res.extra['e1_shape_paths_interpreted'] = _np
     cov = R.read_coverage(repo)
     n = 0
     for (cls, path), r in sorted(cov.items()):
